@@ -4,6 +4,7 @@ import (
 	"fmt"
 	"go/constant"
 	"go/token"
+	"go/types"
 	"regexp"
 	"strconv"
 	"strings"
@@ -310,6 +311,36 @@ func ruleConstFormats(c *core.Ctx, rule string, only func(*ssa.Function) bool) {
 					}
 				}
 				return n > 0, "the package-level variable " + g.Name()
+			}
+			if fa, ok := x.X.(*ssa.FieldAddr); ok && x.Op == token.MUL {
+				// a format kept in a struct field: every store into that field of that struct type must be safe
+				st := fa.X.Type().Underlying().(*types.Pointer).Elem()
+				n := 0
+				for _, fn := range c.P.Funcs {
+					for _, b := range fn.Blocks {
+						for _, in := range b.Instrs {
+							s2, ok := in.(*ssa.Store)
+							if !ok {
+								continue
+							}
+							fa2, ok := s2.Addr.(*ssa.FieldAddr)
+							if !ok || fa2.Field != fa.Field {
+								continue
+							}
+							if pt, ok := fa2.X.Type().Underlying().(*types.Pointer); !ok || !types.Identical(pt.Elem(), st) {
+								continue
+							}
+							n++
+							if ok, why := safe(s2.Val, depth+1); !ok {
+								return false, why
+							}
+						}
+					}
+				}
+				if n > 0 {
+					return true, ""
+				}
+				return false, "the field " + fieldName(fa.X.Type(), fa.Field) + ", which is never assigned in the tree"
 			}
 			return false, "a value loaded from memory (" + x.X.Name() + ")"
 		case *ssa.Parameter:
